@@ -60,7 +60,7 @@ def build(n, items, a):
                 for _ in range(hi - lo):
                     a = build(n, sub, a); n.e(a, b)
                 a = b
-        elif op == sc.ASSERT:      # lookahead: treated as epsilon (over-approximation)
+        elif op in (sc.ASSERT, sc.ASSERT_NOT):      # lookahead / negative lookahead: treated as epsilon (consumes nothing; over-approximation)
             pass
         elif op == sc.AT: pass
         else: raise NotImplementedError(op)
